@@ -73,7 +73,7 @@ func (p *Program) initBinds() {
 	p.binit = true
 	count := map[*ssa.Function]int{}
 	var mcs []*ssa.MakeClosure
-	for _, fn := range p.FuncList {
+	for _, fn := range p.allFuncs() {
 		for _, b := range fn.Blocks {
 			for _, in := range b.Instrs {
 				if mc, ok := in.(*ssa.MakeClosure); ok {
@@ -207,6 +207,49 @@ func (p *Program) resolve(v ssa.Value) ssa.Value {
 				continue
 			}
 			v = b
+		case *ssa.Parameter:
+			// parameter of a transparent helper: the argument at its unique call site
+			fn := x.Parent()
+			site := p.helperSite(fn)
+			if site == nil {
+				return v
+			}
+			idx := -1
+			for k, q := range fn.Params {
+				if q == x {
+					idx = k
+				}
+			}
+			args := site.Common().Args
+			if idx < 0 || idx >= len(args) {
+				return v
+			}
+			v = args[idx]
+		case *ssa.Call:
+			// call of a transparent helper with a single return: the value it returns
+			sc := x.Common().StaticCallee()
+			if sc == nil || !p.transparent(sc) || sc.Signature.Results().Len() != 1 {
+				return v
+			}
+			rets := returnsOf(sc)
+			if len(rets) != 1 {
+				return v
+			}
+			v = p.res(rets[0], 0)
+		case *ssa.Extract:
+			c, ok := x.Tuple.(*ssa.Call)
+			if !ok {
+				return v
+			}
+			sc := c.Common().StaticCallee()
+			if sc == nil || !p.transparent(sc) {
+				return v
+			}
+			rets := returnsOf(sc)
+			if len(rets) != 1 || x.Index >= len(rets[0].Results) {
+				return v
+			}
+			v = p.res(rets[0], x.Index)
 		case *ssa.Phi:
 			var first ssa.Value
 			same := true
@@ -485,16 +528,37 @@ func (cs *callSite) Value() ssa.Value {
 	return nil
 }
 
+// calls lists the call sites executed as part of fn: its own and, in place of each call of a
+// transparent helper, the helper's (see transparent.go). callSite.Fn is the function that contains the site.
 func (p *Program) calls(fn *ssa.Function) []*callSite {
 	var out []*callSite
+	p.collectCalls(fn, &out, 0)
+	return out
+}
+
+func (p *Program) collectCalls(fn *ssa.Function, out *[]*callSite, depth int) {
 	for _, b := range fn.Blocks {
 		for _, in := range b.Instrs {
-			if ci, ok := in.(ssa.CallInstruction); ok {
-				out = append(out, &callSite{Fn: fn, Instr: ci, Common: ci.Common(), Key: p.calleeKey(ci.Common())})
+			ci, ok := in.(ssa.CallInstruction)
+			if !ok {
+				continue
 			}
+			if c, isCall := in.(*ssa.Call); isCall && depth < 6 {
+				if sc := c.Common().StaticCallee(); sc != nil && p.transparent(sc) {
+					p.collectCalls(sc, out, depth+1)
+					continue
+				}
+			}
+			*out = append(*out, &callSite{Fn: fn, Instr: ci, Common: ci.Common(), Key: p.calleeKey(ci.Common())})
 		}
 	}
-	return out
+}
+
+func (p *Program) allFuncs() []*ssa.Function {
+	if p.AllFuncs != nil {
+		return p.AllFuncs
+	}
+	return p.FuncList
 }
 
 // callsTo returns the call sites in fn whose callee key is one of keys.
@@ -533,6 +597,13 @@ func instrIndex(in ssa.Instruction) int {
 
 // dominates reports whether instruction a is executed before b on every path to b.
 func dominates(a, b ssa.Instruction) bool {
+	if a.Parent() != b.Parent() {
+		la, lb, ok := commonFrame(a, b)
+		if !ok || la == lb {
+			return false
+		}
+		a, b = la, lb
+	}
 	if a.Block() == b.Block() {
 		return instrIndex(a) < instrIndex(b)
 	}
@@ -543,24 +614,11 @@ func dominates(a, b ssa.Instruction) bool {
 // reachability
 
 // walkFrom visits every instruction reachable after `from` (exclusive); visit returns false to
-// stop exploring past that instruction.
+// stop exploring past that instruction. The walk descends into transparent helpers at their call
+// and continues after the call when a helper returns (a helper's Return is not visited).
 func walkFrom(from ssa.Instruction, visit func(in ssa.Instruction) bool) {
-	seen := map[*ssa.BasicBlock]bool{}
-	var walkBlock func(b *ssa.BasicBlock, start int)
-	walkBlock = func(b *ssa.BasicBlock, start int) {
-		for i := start; i < len(b.Instrs); i++ {
-			if !visit(b.Instrs[i]) {
-				return
-			}
-		}
-		for _, s := range b.Succs {
-			if !seen[s] {
-				seen[s] = true
-				walkBlock(s, 0)
-			}
-		}
-	}
-	walkBlock(from.Block(), instrIndex(from)+1)
+	w := &walker{visit: visit, seen: map[walkPos]bool{}}
+	w.walk(from.Block(), instrIndex(from)+1)
 }
 
 // walkFromEntry visits every instruction reachable from the entry of fn.
@@ -568,22 +626,51 @@ func walkFromEntry(fn *ssa.Function, visit func(in ssa.Instruction) bool) {
 	if len(fn.Blocks) == 0 {
 		return
 	}
-	seen := map[*ssa.BasicBlock]bool{fn.Blocks[0]: true}
-	var walkBlock func(b *ssa.BasicBlock)
-	walkBlock = func(b *ssa.BasicBlock) {
-		for _, in := range b.Instrs {
-			if !visit(in) {
-				return
+	w := &walker{visit: visit, seen: map[walkPos]bool{}, root: fn}
+	w.walk(fn.Blocks[0], 0)
+}
+
+type walkPos struct {
+	b *ssa.BasicBlock
+	i int
+}
+
+type walker struct {
+	visit func(in ssa.Instruction) bool
+	seen  map[walkPos]bool
+	root  *ssa.Function // for walkFromEntry: returns of root are exits even if root is a helper
+}
+
+func (w *walker) walk(b *ssa.BasicBlock, start int) {
+	key := walkPos{b, start}
+	if w.seen[key] {
+		return
+	}
+	w.seen[key] = true
+	for i := start; i < len(b.Instrs); i++ {
+		in := b.Instrs[i]
+		if ret, isRet := in.(*ssa.Return); isRet && activeProg != nil && b.Parent() != w.root {
+			if site := activeProg.helperSite(b.Parent()); site != nil {
+				if _, isCall := site.(*ssa.Call); isCall {
+					// return of an inlined helper: continue after its call site
+					_ = ret
+					w.walk(site.Block(), instrIndex(site)+1)
+					return
+				}
 			}
 		}
-		for _, s := range b.Succs {
-			if !seen[s] {
-				seen[s] = true
-				walkBlock(s)
-			}
+		if !w.visit(in) {
+			return
+		}
+		if h := transparentCallee(in); h != nil && len(h.Blocks) > 0 {
+			// descend; the helper's returns continue after this call
+			w.walk(h.Blocks[0], 0)
+			return
 		}
 	}
-	walkBlock(fn.Blocks[0])
+	for _, s := range b.Succs {
+		w.walk(s, 0)
+	}
 }
 
 // reachable reports whether `to` can execute after `from` without passing an instruction for which avoid is true.
@@ -678,6 +765,23 @@ var flipOp = map[string]string{"<": ">", ">": "<", "<=": ">=", ">=": "<=", "==":
 // guardsOf returns the branch conditions that hold whenever control is in block b
 // (conditions of dominating Ifs whose taken edge dominates b).
 func guardsOf(b *ssa.BasicBlock) []guard {
+	out := guardsOfLocal(b)
+	// inside a transparent helper: the guards of its call site hold, too
+	for i := 0; i < 6 && activeProg != nil; i++ {
+		site := activeProg.helperSite(b.Parent())
+		if site == nil {
+			break
+		}
+		if _, isCall := site.(*ssa.Call); !isCall {
+			break
+		}
+		b = site.Block()
+		out = append(out, guardsOfLocal(b)...)
+	}
+	return out
+}
+
+func guardsOfLocal(b *ssa.BasicBlock) []guard {
 	var out []guard
 	for cur := b; cur != nil; cur = cur.Idom() {
 		d := cur.Idom()
